@@ -445,3 +445,31 @@ Example C01_child_converges_instance :
   cfinal MInPlace (abs ex_parent ex_dm w') = true /\
   forall sv, child_sync (ex_cfg "InPlace") (ex_kc "InPlace") ex_parent ex_sel ex_dm sv w' = w'.
 Proof. exact C01_child_converges_instance. Qed.
+
+(* ---- the decorator leg (C01d): a converged sync of the decorator model is silent ----
+   When the answer asks nothing of the target (labels, annotations, status as they are) and every
+   desired attachment is settled against the observed ones, the phase after the hook sends no
+   request at all: no hot loop on the decorator side either. *)
+From MC Require Import Model.Decorator Model.DecoratorPreds Proofs.DecoratorLegs.
+
+Theorem C01d_converged_sync_is_silent :
+  forall (c : dcfg) (rl : drule) (parent st : json) (observed : umap) (r : dresp) (desired0 : umap),
+    status_map parent = Some st ->
+    wf_json st = true ->
+    resp_is_noop c parent r = true ->
+    desired_map (dr_attachments r) [] = Some desired0 ->
+    children_settled (ccfg_of c) parent observed (stamp_all c desired0) ->
+    all_calls no_call (finish_d c rl parent observed r).
+Proof. exact DecoratorLegs.C01d_converged_sync_is_silent. Qed.
+Print Assumptions C01d_converged_sync_is_silent.
+
+Theorem C01d_converged_sync_trace :
+  forall (c : dcfg) (rl : drule) (parent st : json) (observed : umap) (r : dresp) (desired0 : umap) (e : env) (h : hist),
+    status_map parent = Some st ->
+    wf_json st = true ->
+    resp_is_noop c parent r = true ->
+    desired_map (dr_attachments r) [] = Some desired0 ->
+    children_settled (ccfg_of c) parent observed (stamp_all c desired0) ->
+    fst (run (finish_d c rl parent observed r) e h) = h.
+Proof. exact DecoratorLegs.C01d_converged_sync_trace. Qed.
+Print Assumptions C01d_converged_sync_trace.
